@@ -334,7 +334,7 @@ def replaceSubcircuit (c sub : Circuit) (im om : List (Label × Label)) (ctr : N
                       let c5 := { c4 with outputs := copyOutputs }
                       let c6 := outUsers.foldl (fun (cc : Circuit) p =>
                         { cc with users := Dict.set cc.users p.1 ((Dict.get? cc.users p.1).getD [] ++ p.2) }) c5
-                      match hasCycleCheck c6 with
+                      match hasCycleCheckFrom c6 (some c6.labels) with
                       | .error e => .error e
                       | .ok true => .error "CircuitValidationError"
                       | .ok false => .ok (c6, ctr + 1)
